@@ -70,6 +70,19 @@ theorem sortBy_sorted {α} (lt : α → α → Bool) (hasymm : ∀ a b, lt a b =
   | nil => simp [sortBy]
   | cons x xs ih => exact insertBy_sorted lt hasymm htrans x _ ih
 
+example : (∀ a b : Nat, decide (a < b) = true → decide (b < a) = false) ∧
+    (∀ a b c : Nat, decide (a < b) = true → decide (b < c) = true → decide (a < c) = true) := by
+  constructor
+  · intro a b h; simp at h ⊢; omega
+  · intro a b c h1 h2; simp at h1 h2 ⊢; omega
+
+/-- the encoded pairs Tornado joins are in RFC 5849 order: no later pair is smaller (by name, then value) than an
+earlier one -/
+theorem normParams_sorted (pairs : List (Bytes × Bytes)) :
+    (sortBy tupleLt pairs).Pairwise (fun a b => pairLt b a = false) := by
+  rw [sortBy_congr tupleLt pairLt tupleLt_eq_pairLt]
+  exact sortBy_sorted pairLt pairLt_asymm pairLt_trans pairs
+
 example : sortBy tupleLt [([97, 47], [50]), ([97, 45], [49]), ([97], [51])] = [([97], [51]), ([97, 45], [49]), ([97, 47], [50])] := by decide
 
 /-- `_oauth_base_string_uri` (strip a textual `:80` / `:443` suffix of the lower-cased authority) = §3.4.1.2
